@@ -268,6 +268,21 @@ ExpE(case) == ExpEr(case, "own")
 \* the sets of enabled instances the property admits (one set unless the case is ambiguous as above)
 ExpEs(case) == {ExpEr(case, "own"), ExpEr(case, "all")}
 
+(* Routes: the operations through which a chart tree reaches a release, and the user values *)
+(* in force for each.  The property speaks of "the parent's effective values": for a        *)
+(* template / install they come from the request; an upgrade that is given NO values        *)
+(* carries the deployed release's values forward (also with reuse-values and                *)
+(* reset-then-reuse-values), unless reset-values is set - then only the chart defaults      *)
+(* remain.  reuse-values additionally makes the deployed release's COMPUTED values the new   *)
+(* chart's default values (upgrade.go:reuseValues sets chart.Values to the old coalesced     *)
+(* values), i.e. the operation runs on a chart whose root defaults are the old final values. *)
+(* What must be rendered by the operation of a route is ExpEs(CaseFor(case, r)).             *)
+Routes == {"template", "install", "upgrade", "upgrade-reuse", "upgrade-reset-then-reuse", "upgrade-reset"}
+CaseFor(case, route) ==
+  CASE route = "upgrade-reset" -> [case EXCEPT !.user = {}, !.uset = {}]
+    [] route = "upgrade-reuse" -> [case EXCEPT !.charts[RootChart].defaults = FinalCode(case)]
+    [] OTHER -> case
+
 EnabledKids(case, E, P) == {Last(Q) : Q \in {R \in E : Len(R) = Len(P) + 1 /\ IsPrefix(P, R)}}
 
 (* what chart instance P may see (seen = its .Values):                              *)
@@ -373,7 +388,10 @@ CaseOfJ(j) == [charts |-> [ch \in DOMAIN j.charts |->
 
 \* model check: the two transcriptions agree on every complete, well-formed case (or the case
 \* has the shape of an understood lead)
-AgreeInv == (Complete /\ WFCase(Case)) => (Agree(Case) \/ KnownLead(Case))
+AgreeOn(routes) == (Complete /\ WFCase(Case)) =>
+                     \A r \in routes : Agree(CaseFor(Case, r)) \/ KnownLead(CaseFor(Case, r))
+AgreeInv    == AgreeOn({"install", "upgrade-reset"})
+AgreeInvAll == AgreeOn({"install", "upgrade-reset", "upgrade-reuse"})
 \* the strict form, used to list the leads
 AgreeStrict == (Complete /\ WFCase(Case)) => Agree(Case)
 
